@@ -37,6 +37,11 @@ class EndDevice(Zigbee):
         if not self.can_be_end_device():
             raise UnsupportedCapability("EndDevice")
 
+        # The Zigbee stack configures the node address while it initializes:
+        # make sure the interface supports it before sending any command.
+        if not self.can_set_node_address():
+            raise UnsupportedCapability("SetNodeAddress")
+
         # Stack initialization
         MACManager.add(NWKManager)
         self.__stack = Dot15d4Stack(self)
